@@ -198,7 +198,7 @@ func (p *Pool) Run(njobs int, job func(d *Driver, i int)) {
 // C09_output_clean) are tested on the real library on every oracle answer of every run.
 var oracleMu sync.Mutex
 var oracleCalls, oracleErrs int
-var oracleH1Fail, oracleH2Fail, oracleH3Fail []string
+var oracleH1Fail, oracleH2Fail, oracleH3Fail, oracleH4Fail, oracleH5Fail []string
 
 // the wrapper's fall-back test (hostparser.go containsOnlyASCIIOrMiscAndNoPunycode), re-implemented
 func fallbackAccepts(s string) bool {
@@ -278,6 +278,26 @@ func oracleLog(s, a string, isErr bool) {
 		}
 		if bad && len(oracleH3Fail) < 5 {
 			oracleH3Fail = append(oracleH3Fail, s)
+		}
+	}
+	// H4/H5 (oracle_ok of Proofs/RefineMachineBase.v, premises of the C01/C05 refinement theorems), on the wrapper ToASCII of
+	// the default parser: an accepted result for a non-empty valid-UTF-8 domain is a non-empty ASCII string; a domain
+	// containing U+FFFD is rejected
+	if utf8.ValidString(s) {
+		out, err := url.VerifToASCII(defaultCfg.Parser, s, false)
+		if err == nil {
+			bad := out == ""
+			for i := 0; i < len(out); i++ {
+				if out[i] >= 0x80 {
+					bad = true
+				}
+			}
+			if bad && len(oracleH4Fail) < 5 {
+				oracleH4Fail = append(oracleH4Fail, s)
+			}
+			if strings.ContainsRune(s, 0xFFFD) && len(oracleH5Fail) < 5 {
+				oracleH5Fail = append(oracleH5Fail, s)
+			}
 		}
 	}
 	// H2: the answer does not depend on ASCII letter case (sampled: every 4th call, valid UTF-8 only)
